@@ -314,4 +314,67 @@ def simulate (sol : Solution) (ms : MeasSol) (deviation split : Bool) (solvec : 
       { main with x := copyCols main.x out.x f e, y := copyCols main.y out.y f e,
                   v := copyCols main.v out.v f e, w := copyCols main.w out.w f e }) d
 
+
+/-! ## Object state: the expansion memo, histories on one model object, the variant loop (generic and executable) -/
+
+/-- `_get_solution_expansion` on the cached list `existing_expansion`: `for k in range(len(memo), forward): memo.append(gen k)` -/
+def extendMemo {α : Type} (gen : Nat → α) (memo : List α) (forward : Nat) : List α :=
+  (List.range (forward - memo.length)).foldl (fun m _ => m ++ [gen m.length]) memo
+
+/-- one request for horizon `forward`: the new memo and the returned list `[R0] + memo[:forward]` -/
+def requestMemo {α : Type} (r0 : α) (gen : Nat → α) (memo : List α) (forward : Nat) : List α × List α :=
+  let memo' := extendMemo gen memo forward
+  (memo', r0 :: memo'.take forward)
+
+/-- a sequence of horizon requests on one `Solution` object -/
+def runRequests {α : Type} (r0 : α) (gen : Nat → α) : List α → List Nat → List (List α)
+  | _, [] => []
+  | memo, f :: fs => (requestMemo r0 gen memo f).2 :: runRequests r0 gen (requestMemo r0 gen memo f).1 fs
+
+/-- `R_(k+1) = -X J^k Ru` -/
+def expansionGen (X J Ru : QMat) (k : Nat) : QMat := -(X * QMat.pow J k * Ru)
+
+/-- a model object: the parameters in force, the stored solution (set by `solve`), copies taken so far -/
+structure ObjState (π σ : Type) where
+  params : π
+  solution : σ
+  copies : List (π × σ)
+
+inductive ObjOp (π : Type) where
+  | assign (p : π)
+  | solve
+  | obs (deviation : Bool)          -- `_gets_solution(deviation)`: a FRESH deviation solution from the stored one, no memo
+  | copy
+  | obsCopy (k : Nat) (deviation : Bool)
+
+/-- one step; an observation reports (parameters in force of the observed object, deviation flag, solution used) -/
+def objStep {π σ : Type} (solveF : π → σ) (devF : σ → σ) (s : ObjState π σ) : ObjOp π → ObjState π σ × Option (π × Bool × σ)
+  | .assign p => ({ s with params := p }, none)
+  | .solve => ({ s with solution := solveF s.params }, none)
+  | .obs d => (s, some (s.params, d, if d then devF s.solution else s.solution))
+  | .copy => ({ s with copies := s.copies ++ [(s.params, s.solution)] }, none)
+  | .obsCopy k d => (s, (s.copies[k]?).map fun c => (c.1, d, if d then devF c.2 else c.2))
+
+def runObj {π σ : Type} (solveF : π → σ) (devF : σ → σ) : ObjState π σ → List (ObjOp π) → List (π × Bool × σ)
+  | _, [] => []
+  | s, op :: ops =>
+    match (objStep solveF devF s op).2 with
+    | some o => o :: runObj solveF devF (objStep solveF devF s op).1 ops
+    | none => runObj solveF devF (objStep solveF devF s op).1 ops
+
+/-- the variant loop of `solve` / `simulate`: output `k` uses model variant `min k (M-1)` (exhaust, then the last one) and data
+variant `0` when the data carry one variant, `k` when they carry `n`; any other number of data variants is rejected -/
+def variantPlan (n M D : Nat) : Option (List (Nat × Nat)) :=
+  if M = 0 then none
+  else if D = 1 then some ((List.range n).map fun k => (min k (M - 1), 0))
+  else if D = n then some ((List.range n).map fun k => (min k (M - 1), k))
+  else none
+
+def simulateAll {μ δ ρ : Type} (sim : μ → δ → ρ) (models : List μ) (datas : List δ) (n : Nat) : Option (List ρ) :=
+  (variantPlan n models.length datas.length).bind fun plan =>
+    plan.mapM fun (i, j) => do
+      let m ← models[i]?
+      let d ← datas[j]?
+      pure (sim m d)
+
 end IrisVerif.FirstOrder
